@@ -1,4 +1,5 @@
 //! bsv-coll: engines B (collections) and C (strings).
 pub mod coll;
 pub mod coll_api;
+pub mod plain;
 pub mod strings;
